@@ -63,6 +63,7 @@ class Emitter:
         self.unit = None
         self.refvars = [set()]
         self.renames = self.cfg.get("rename", {})
+        self.const_types = {}  # const_globals name -> C type
         self.lib = libmap
         self.dropped = []
         self.callees = {}  # cname -> description
@@ -270,6 +271,10 @@ class Emitter:
         if name in self.cfg.get("const_globals", {}):
             # compile-time constant of the real code: evaluated by the real compiler (cxx2c.eval_constants)
             self.const_needed.add(name)
+            try:  # keep the constant's own type (an `unsigned` flag must not become a signed int literal)
+                self.const_types[name] = self.ctype((rd.get("type") or {}).get("desugaredQualType") or rd["type"]["qualType"])
+            except Unsupported:
+                pass
             return "VFC_" + ident(name)
         gmap = self.cfg.get("globals", {})
         cn = gmap.get(name, ident(name))
@@ -602,7 +607,10 @@ class Emitter:
             if name in DROP_CALLS:
                 self.dropped.append(name)
                 return "((void)0)"
-            cname = self.fn_cname(None, name, fnt)
+            # plain call of a CXXMethodDecl = static member function: named like the methods of its class (clang's JSON
+            # gives no qualifier for the callee; an unqualified call can only reach the current class or a base of it)
+            stat_cls = self.unit.cls if rd.get("kind") == "CXXMethodDecl" else None
+            cname = self.fn_cname(stat_cls, name, fnt)
             params = self.fn_params_from(fnt)
             a = self.call_args(args, params)
             ret, isref = self.ret_ctype_from(fnt)
